@@ -49,9 +49,23 @@ func runModGraph(args []*Sexp) *Sexp {
 			scan(cf)
 		}
 	}
-	g1 := ugo.Map{"log": ugo.Array{}}
+	// apply(f) / applyp(f): a Go callback running f on a child VM (Invoker without / with Acquire)
+	mkApply := func(pooled bool) *ugo.Function {
+		return &ugo.Function{Name: "apply", ValueEx: func(c ugo.Call) (ugo.Object, error) {
+			if c.Len() != 1 {
+				return ugo.Undefined, ugo.ErrWrongNumArguments
+			}
+			inv := ugo.NewInvoker(c.VM(), c.Get(0))
+			if pooled {
+				inv.Acquire()
+				defer inv.Release()
+			}
+			return inv.Invoke()
+		}}
+	}
+	g1 := ugo.Map{"log": ugo.Array{}, "apply": mkApply(false), "applyp": mkApply(true)}
 	r1 := runBytecode(bc, g1)
-	g2 := ugo.Map{"log": ugo.Array{}}
+	g2 := ugo.Map{"log": ugo.Array{}, "apply": mkApply(false), "applyp": mkApply(true)}
 	r2 := runBytecode(bc, g2)
 	return L(A("modgraph"), r1, SexpOfValue(g1["log"]), r2, SexpOfValue(g2["log"]), pairs, A(fmt.Sprint(bc.NumModules)))
 }
